@@ -1869,6 +1869,35 @@ let resonance_bound nO beta tolR l z0 z_is_zero =
          else nO.n0
     else nO.n0)
 
+(** val tau_weight : 'a1 numops -> 'a1 -> 'a1 -> 'a1 **)
+
+let tau_weight nO beta p =
+  let e = nO.nexp (nO.nopp (nO.nmul beta p)) in
+  nO.ndiv (if nO.nre_ltb nO.n1 e then e else nO.n1)
+    (nO.nabs (nO.nsub nO.n1 e))
+
+(** val tau_dropped_bound :
+    'a1 numops -> 'a1 -> 'a1 -> ('a1 * 'a1) list -> 'a1 **)
+
+let tau_dropped_bound nO beta tolM terms =
+  ksum nO terms (fun t ->
+    if nO.nre_ltb tolM (nO.nabs (snd t))
+    then nO.n0
+    else nO.nmul (nO.nabs (snd t)) (tau_weight nO beta (fst t)))
+
+(** val tau_merge_bound :
+    'a1 numops -> 'a1 -> (('a1 * 'a1) * 'a1) list -> 'a1 **)
+
+let tau_merge_bound nO beta wd =
+  ksum nO wd (fun t ->
+    let p = fst (fst t) in
+    let r = snd (fst t) in
+    let d = snd t in
+    let e = nO.nexp (nO.nopp (nO.nmul beta p)) in
+    nO.nmul
+      (nO.nmul (nO.nmul (nO.nmul (nO.nabs r) d) beta) (tau_weight nO beta p))
+      (nO.nadd nO.n1 (nO.ndiv nO.n1 (nO.nabs (nO.nsub nO.n1 e)))))
+
 type status =
 | Constructed
 | Prepared
@@ -2263,3 +2292,15 @@ let c_susc_terms fexp =
 
 let c_resonance_bound fexp =
   resonance_bound (fops fexp)
+
+(** val c_tau_dropped_bound :
+    (Float64.t -> Float64.t) -> fc -> fc -> (fc * fc) list -> fc **)
+
+let c_tau_dropped_bound fexp =
+  tau_dropped_bound (fops fexp)
+
+(** val c_tau_merge_bound :
+    (Float64.t -> Float64.t) -> fc -> ((fc * fc) * fc) list -> fc **)
+
+let c_tau_merge_bound fexp =
+  tau_merge_bound (fops fexp)
